@@ -38,8 +38,9 @@ def run(chk: framework.Check):
     drv = lean.Driver()
     n_worlds = 250 if chk.tier == "quick" else 3000
     corr_fail = []
-    for G, S, w in streams.worlds(chk, drv, n_worlds):
+    for G, S, w in streams.worlds(chk, drv, n_worlds, unions=True):
         for ty, x, xv in streams.typed_values(chk, G, S, w, n_types=4, n_values=1):
+            has_union = bool(gen.reach_unions(w, ty))
             for base in BASES:
                 cd = dict(base, detailed=True)
                 cf = dict(base, detailed=False)
@@ -64,7 +65,10 @@ def run(chk: framework.Check):
                     chk.count(key, nontrivial=not isinstance(ty, str),
                               sample={"cfg": cfg_name(cd), "type": terms.ty_sx(ty), "payload": terms.canon_sx(p),
                                       "detailed": outcome(rd)[0], "fast": outcome(rf)[0]})
-                    chk.note("payload:" + kind, "outcome:" + outcome(rd)[0], "cfg:" + cfg_name(cf))
+                    chk.note("payload:" + kind, "outcome:" + outcome(rd)[0], "cfg:" + cfg_name(cf),
+                             "ty:" + (ty if isinstance(ty, str) else ty[0]))
+                    if has_union:
+                        chk.note("union-reachable:" + kind + ":" + outcome(rd)[0])
                     od, of = outcome(rd), outcome(rf)
                     if "unrep" in (od[0], of[0]):
                         if od[0] != of[0]:
